@@ -33,6 +33,22 @@ CLAIMS = {
         note="A1 (0.01 is not a binary fraction: the float complement R6 evaluates the real wrapper at grid/half-way/ulp points), A4; numpy.ceil/floor/round contracts trusted; R3-R5 are exhaustive executions, not symbolic",
         ref="7 C10",
     ),
+    "C11": dict(
+        engine="E2 loopvc",
+        level="proof",
+        technique="contract-based deductive verification: loop-invariant VCs (self-generated from the real AST, z3 arrays + quantifiers, unbounded N) for sum_by_p_id; abstract execution of the real grouped_* kernels per dtype class against the npg.aggregate contract; exhaustive precedence / result-type tables",
+        text="sum_by_p_id: init/preservation/post/safety VCs discharged for any number of rows (ghost partial-sum contract). grouped_count/sum/mean/max/min/any/all: for each dtype class the real straight-line kernel returns exactly Gather(Agg(group_id, column, F), group_id) or raises TypeError outside the documented classes. Spec precedence and result types exhaustively over all presence patterns. join_numpy and datetime max/min bounded-exhaustive only (stated).",
+        note="A1 (summation order ignored); trusted: npg.aggregate contract (validated on all small arrays against the real library in the same run), numpy fancy indexing, loopvc's dict/array model; termination not verified; join_numpy not proved (bounded)",
+        ref="7 C11",
+    ),
+    "C12": dict(
+        engine="E2 loopvc",
+        level="proof",
+        technique="contract-based deductive verification: loop-invariant verification conditions generated from the real source of eg_id/ehe_id/sn_id/bg_id/wthh_id_numpy (dict/Counter/list as z3 arrays, quantified invariants, Skolem partner-row function), discharged by z3 for an unbounded number of rows; fg_id_numpy bounded-exhaustive (the property's own bound)",
+        text="123 VCs (init, preservation per path and conjunct, order-free partition postconditions, exceptional post of sn_id, safety of dict look-ups) discharged for the five kernels; collision / nesting lemmas; vacuity canaries. fg_id_numpy is checked against an independent executable unit definition on ALL typed pointer structures up to isomorphism and ALL row orders up to 4 persons (quick) / 5 persons (thorough): bounded, not counted as proved.",
+        note="VALID (unique ids, symmetric existing pointers, partners share a household, < 100 split-off children per family unit); Python ints mathematical; termination not verified; fg_id_numpy is outside E2 (dict of lists, two loops) -> bounded exhaustive; structures with ambiguous unit definition (two co-resident parents that are not partners; partnered persons under 25 living with a parent) are excluded from its domain",
+        ref="7 C12",
+    ),
     "C13": dict(
         engine=E1,
         level="proof",
@@ -40,6 +56,14 @@ CLAIMS = {
         text="Converter algebra (factor, inverse, composition, additivity) and every derived node = source*factor proved for all real x; availability of all four units, converter/name agreement, no rounding key on derived nodes, and hard-coded unit siblings being computed from each other, checked exhaustively on the real universe of every date class of the function set.",
         note="A1 with relative tolerance 2^-48 (365.25/7 is not a float); factors read from GEP-4; naming convention parsed by an independent suffix parser; dags.rename_arguments trusted; API cross-unit run is a bounded stand-in",
         ref="7 C13",
+    ),
+    "C15": dict(
+        engine=E1,
+        level="proof",
+        technique="contract-based deductive verification: non-interference by self-composition over the E1 summary of every group-level scalar rule (z3: two copies differing in one individual-level argument must give equal results); group-levelness of arguments derived along the real DAG",
+        text="For every node with a group suffix in the default-target DAG of every date class >= 2015 (thorough: all classes): aggregates use their own group id, time conversions keep the suffix, scalar rules provably do not depend on any argument that is not constant within the unit. Refutations are replayed through the public API with two members of one unit; four open known findings are reported as KNOWN-FINDING.",
+        note="A1, A2, A4; unit nesting bg<=fg<=hh, bg<=wthh, eg<=bg,fg,hh, sn<=ehe from C12/C17 and VALID; aggregates constant per group by the C11 contract",
+        ref="7 C15",
     ),
     "C18": dict(
         engine=E1,
@@ -59,6 +83,10 @@ CLAIMS = {
     ),
 }
 
+ENGINES_EXTRA = [
+    {"name": "E2 loopvc", "path": "vt/loopvc.py", "serves_properties": ["C11", "C12"], "kind_free_text": "weakest-precondition style VC generation for loops over arrays/dicts/lists from the real AST, invariants from sidecar contracts (contracts/groupings.py), z3 arrays + quantifiers, unbounded N"},
+]
+
 ENGINES = [
     {"name": E1, "path": "vt/symx.py", "serves_properties": sorted(k for k, v in CLAIMS.items() if v["engine"] == E1), "kind_free_text": "AST->z3 symbolic executor for the scalar Python subset of the policy rules, helpers, converters, piecewise_polynomial and the rounding wrapper; obligations discharged by z3 5.1 (cvc5 on unknown); encoder cross-checked against CPython"},
 ]
@@ -73,9 +101,9 @@ man = {
         "source_commits": [],
         "add_only": True,
     },
-    "engines": ENGINES,
+    "engines": ENGINES + ENGINES_EXTRA,
     "checks": [],
-    "notes": "Contract-based deductive verification with self-generated verification conditions (no Python verifier exists in the sandbox). See DESIGN.md. fix: commits in /repo: be15bcc (C03 dtype), 27f9d05 (C10/C07 rounding offset), 9be6802 and 4b2a097 (C08).",
+    "notes": "Contract-based deductive verification with self-generated verification conditions (no Python verifier exists in the sandbox). See DESIGN.md. fix: commits in /repo: be15bcc (C03 dtype), 27f9d05 (C10/C07 rounding offset), 9be6802 and 4b2a097 (C08), 1d11443 (C12/C01 fg_id step-children).",
     "not_applicable": [],
 }
 for p in props:
